@@ -69,6 +69,16 @@ CLAIMED = {
    text='Interpolation half only: with kernel and per-segment models stubbed, every interpolated quantity of SubductingPlate/Fault::properties (thickness, top truncation, length handed to the models, temperature, composition, velocity) is proved equal to a + f(b-a) with a, b taken from sections cur and cur+1 only, hence convex for f in [0,1], equal to a section\'s own value at its coordinate, and independent of every other section.',
    note=TB + 'NOT covered: inheritance of models from feature/section level to segments (implemented by copying JSON sub-trees in parameters.cc with rapidjson pointers and std::string paths - not encodable here); quaternion slerp of grain rotations.',
    technique='symbolic execution of clang LLVM IR + z3 (QF_NRA), 3 sections x 1-2 segments, stub models', design='4/C10'),
+ 'C11': dict(
+   text='The real Surface constructor, kd-tree, in_triangle and local_value are executed symbolically with the Delaunay triangulator replaced by a stub returning an arbitrary valid triangulation (any vertex rotation, either diagonal) - for every non-degenerate triangle and (thorough) convex quadrilateral of a 3x3 lattice, all nodal values and all query points in the hull: '
+        'a listed point gets its listed value, the interpolated depth lies between the extreme nodal values, affine nodal data are reproduced exactly whatever triangulation is chosen, a point in the hull is always found. The same-point predicate used for the corner merge (approx) is proved reflexive for all finite doubles (bit-precise) and proved not to merge distinct points.',
+   note=TB + 'NOT covered: the merge of defaults and user-listed points itself (Parameters::get(name, points): rapidjson/std::string code, not encodable) - only its same-point predicate; more than 4 points; Delaunay quality; point shapes are enumerated on a lattice (concrete per case), values/query symbolic.',
+   technique='symbolic execution of clang LLVM IR + z3 (QF_NRA/LRA; FP bit-precise for approx), triangulator replaced by a nondeterministic contract stub', design='4/C11'),
+ 'C19': dict(
+   text='kd-tree: for every set of N<=3 (4 thorough) nodes with arbitrary real coordinates, the tree built by the real create_tree (incl. libstdc++ nth_element) and searched by find_closest_point(s) returns a node at the true minimum distance with the right distance; polygon test = winding-number definition on lattices (shared with C04); '
+        'Bezier segments start/end at their coordinates for arbitrary control points; the spherical same-depth distance equals r*acos(clamp(p1.p2/r^2,-1,1)) for every pair of points.',
+   note=TB + 'NOT covered: closest point on the Bezier curve (Newton search) and the Cartesian<->spherical round trip (inverse trigonometric identities) - no installed solver decides them; coordinates bounded by 1e8; exact-real reading.',
+   technique='symbolic execution of clang LLVM IR + z3 (QF_NRA with uninterpreted sqrt/sin/cos/acos under contract axioms), brute-force definition as oracle', design='4/C19'),
 }
 NA_DEFAULT = 'check not built yet (work in progress; see DESIGN.md section 4 for the planned obligations)'
 NA = {
